@@ -130,6 +130,16 @@ Theorem C05_charges_run_the_table_after_every_history : forall pen ops,
                              set_equiv (i_running cit) r).
 Proof. exact charges_run_the_table. Qed.
 
+(* ---- every item, in one statement (the two theorems above combined) ---- *)
+Theorem C05_every_item_runs_the_table_after_every_history : forall pen ops,
+  ops_clean3b (init_sys pen) ops = true ->
+  let w := s_w (run (init_sys pen) ops) in
+  forall i it, get_item w i = Some it ->
+    (i_loaded it = None -> i_running it = []) /\
+    (i_loaded it <> None -> forall st r, item_state w i = Some st -> expected_st w st it = Some r ->
+                            set_equiv (i_running it) r).
+Proof. exact every_item_runs_the_table. Qed.
+
 (* ... and in those worlds a charge / autocharge holds nothing itself and is on a fit whenever loaded *)
 Theorem C05_charges_are_leaves_after_every_history : forall pen ops,
   ops_clean3b (init_sys pen) ops = true ->
@@ -199,3 +209,4 @@ Print Assumptions C05_load_unload_keep_running_table.
 Print Assumptions C05_charges_run_the_table_after_every_history.
 Print Assumptions C05_charges_are_leaves_after_every_history.
 Print Assumptions C05_every_operation_keeps_charge_running_table.
+Print Assumptions C05_every_item_runs_the_table_after_every_history.
